@@ -383,6 +383,14 @@ func runC07(r *Rand, tier string, o *Out) {
 		add("sig", []byte(strings.Repeat("(", depth)+"i"+strings.Repeat(")", depth)), "nested-tuples")
 		add("sig", []byte(strings.Repeat("[", 200+r.Intn(400))+"i"), "nested-lists")
 		add("sig", r.Bytes(r.Intn(30)), "random")
+		// near misses of valid signatures: a character dropped, doubled or replaced; member names that do not
+		// match the member types, at any depth
+		add("sig", mutateText(r, genSig(r, 1+r.Intn(4), basicLetters).String()), "mutated-text")
+		{
+			inner := []string{"(s)<A,a,b>", "(ss)<A,a>", "(I)<A>", "()<A,a>", "(s(s)<B,a,b>)<A,x,y>", "(i)<A,a,>", "(i)<,a>"}[r.Intn(7)]
+			wrap := []string{"[%s]", "{s%s}", "(%s)", "(i%s)<S,a,b>", "[[%s]]", "{I[%s]}", "%s"}[r.Intn(7)]
+			add("sig", []byte(fmt.Sprintf(wrap, inner)), "member-count-mismatch")
+		}
 		add("idl", []byte(idlSamples[r.Intn(len(idlSamples))]), "valid")
 		add("idl", mutateText(r, idlSamples[r.Intn(len(idlSamples))]), "mutated-text")
 		add("idl", r.Bytes(r.Intn(60)), "random")
@@ -468,14 +476,21 @@ func runC07(r *Rand, tier string, o *Out) {
 
 // canonical class of a resource / crash failure: the entry point and the mechanism
 func c07Class(c c07Case, cl string) string {
+	// a listed finding is a resource blow-up of one mechanism; a panic or a crash at the same entry
+	// point is something else and keeps its own class
+	resource := cl == "blowup" || cl == "timeout" || cl == "oom"
 	switch {
-	case c.entry == "sig":
+	case c.entry == "sig" && resource:
 		return "signature parser takes exponential time on nested parentheses"
-	case strings.HasPrefix(c.entry, "gen:"):
+	case c.entry == "sig":
+		return "signature parser: " + cl
+	case strings.HasPrefix(c.entry, "gen:") && resource:
 		return "generated reader allocates the element count found on the wire"
+	case strings.HasPrefix(c.entry, "gen:"):
+		return "generated reader: " + cl
 	case strings.HasPrefix(c.entry, "rd:"):
 		t := parseSigTSafe(c.entry[3:])
-		if t != nil && hasZeroSizeElem(t) {
+		if t != nil && hasZeroSizeElem(t) && resource {
 			return "signature-driven reader iterates the wire count over zero-size elements"
 		}
 		return "signature-driven reader: " + cl
